@@ -801,9 +801,11 @@ class Component(composites.Composite, metaclass=ComponentType):
             area = self.getArea()
 
         # change the densities
-        if wipe:
-            self.p.numberDensities = {}  # clear things not passed
-        self.p.numberDensities.update(numberDensities)
+        # assign a new dictionary instead of mutating the stored one, so that a refused
+        # assignment (read-only parameters) leaves the value untouched
+        newDensities = {} if wipe else dict(self.p.numberDensities)
+        newDensities.update(numberDensities)
+        self.p.numberDensities = newDensities
 
         # check if thermal expansion changed
         dLLnew = self.material.linearExpansionPercent(Tc=self.temperatureInC) / 100.0
